@@ -44,6 +44,7 @@ type Conn struct {
 	fromReceived bool
 	recipients   []string
 	didAuth      bool
+	closed       bool
 }
 
 func newConn(c net.Conn, s *Server) *Conn {
@@ -170,6 +171,8 @@ func (c *Conn) Close() error {
 	c.locker.Lock()
 	defer c.locker.Unlock()
 
+	c.closed = true
+
 	if c.bdatPipe != nil {
 		c.bdatPipe.CloseWithError(ErrDataReset)
 		c.bdatPipe = nil
@@ -181,6 +184,14 @@ func (c *Conn) Close() error {
 	}
 
 	return c.conn.Close()
+}
+
+// isClosed reports whether Close has been called, by a handler (QUIT, too many
+// errors, panic) or by Server.Close.
+func (c *Conn) isClosed() bool {
+	c.locker.Lock()
+	defer c.locker.Unlock()
+	return c.closed
 }
 
 // TLSConnectionState returns the connection's TLS connection state.
